@@ -554,8 +554,11 @@ impl<'a, E: Est> Hooks<E> for InvHooks<'a> {
                 Stat::WMean if is_weighted && weights_nonneg && wsum_pos => {
                     let tol = 32. * nf * U * m;
                     if !(got >= wmn - tol && got <= wmx + tol) {
+                        // products weight*mean below the smallest normal number: see known finding K1
+                        let wsum: f64 = self.ws[range.0..range.1].iter().sum();
+                        let regime = if wm_m * wsum < 1e-300 { "outside_range:underflow" } else { "outside_range" };
                         return fail(
-                            "outside_range",
+                            regime,
                             stat,
                             got,
                             format!("outside the range [{:e}, {:e}] +- {:e} of the contributing observations", wmn, wmx, tol),
@@ -1224,12 +1227,158 @@ fn simpler_value(x: f64) -> Vec<f64> {
     v
 }
 
+#[derive(Clone, Debug)]
+enum REdit {
+    SingleLeaf,
+    RemoveItems(usize, usize),
+    Collapse(usize),
+    DropOrder,
+    PlainLeaf(usize),
+    ClearPieceRestore(usize, usize),
+    ClearSwap(usize),
+    ClearJoinRestore(usize),
+    PlainTail(usize, usize),
+    SetValue(usize, bool, u64),
+}
+
+fn r_edits(tr: &RTrace) -> Vec<REdit> {
+    let mut out = vec![];
+    let n = tr.data.len();
+    if tr.tree.nodes.len() > 1 {
+        out.push(REdit::SingleLeaf);
+    }
+    let mut s = n / 2;
+    while s >= 1 {
+        let mut lo = 0;
+        while lo + s <= n {
+            out.push(REdit::RemoveItems(lo, lo + s));
+            lo += s;
+        }
+        s /= 2;
+    }
+    let reach = tr.tree.reachable();
+    for &id in &reach {
+        if let Node::Join { .. } = &tr.tree.nodes[id] {
+            out.push(REdit::Collapse(id));
+        }
+    }
+    if !tr.tree.order.is_empty() {
+        out.push(REdit::DropOrder);
+    }
+    for &id in &reach {
+        match &tr.tree.nodes[id] {
+            Node::Leaf { pieces } => {
+                if pieces.len() != 1 || pieces[0].path != Path::AddLoop || pieces[0].restore {
+                    out.push(REdit::PlainLeaf(id));
+                }
+                for (k, p) in pieces.iter().enumerate() {
+                    if p.restore {
+                        out.push(REdit::ClearPieceRestore(id, k));
+                    }
+                }
+            }
+            Node::Join { swap, restore, tail, .. } => {
+                if *swap {
+                    out.push(REdit::ClearSwap(id));
+                }
+                if *restore {
+                    out.push(REdit::ClearJoinRestore(id));
+                }
+                for (k, p) in tail.iter().enumerate() {
+                    if p.restore || p.path != Path::AddLoop {
+                        out.push(REdit::PlainTail(id, k));
+                    }
+                }
+            }
+        }
+    }
+    if n <= 64 {
+        for i in 0..n {
+            for y in simpler_value(f64::from_bits(tr.data[i].0)) {
+                out.push(REdit::SetValue(i, false, y.to_bits()));
+            }
+            if tr.pair {
+                for y in simpler_value(f64::from_bits(tr.data[i].1)) {
+                    out.push(REdit::SetValue(i, true, y.to_bits()));
+                }
+            }
+        }
+    }
+    out
+}
+
+fn r_apply(tr: &RTrace, e: &REdit) -> Option<RTrace> {
+    let mut t;
+    match e {
+        REdit::SingleLeaf => {
+            t = tr.clone();
+            t.tree = TreeTrace::single_leaf(tr.data.len());
+        }
+        REdit::RemoveItems(lo, hi) => {
+            t = remove_items(tr, *lo, *hi);
+        }
+        REdit::Collapse(id) => {
+            t = tr.clone();
+            let layout = tr.tree.layout();
+            let len = layout[*id].1 - layout[*id].0;
+            t.tree.nodes[*id] = Node::Leaf { pieces: vec![Piece { path: Path::AddLoop, len, restore: false }] };
+            t.tree = prune(&t.tree);
+        }
+        REdit::DropOrder => {
+            t = tr.clone();
+            t.tree.order.clear();
+        }
+        REdit::PlainLeaf(id) => {
+            t = tr.clone();
+            let len = match &tr.tree.nodes[*id] {
+                Node::Leaf { pieces } => pieces.iter().map(|p| p.len).sum(),
+                _ => return None,
+            };
+            t.tree.nodes[*id] = Node::Leaf { pieces: vec![Piece { path: Path::AddLoop, len, restore: false }] };
+        }
+        REdit::ClearPieceRestore(id, k) => {
+            t = tr.clone();
+            if let Node::Leaf { pieces } = &mut t.tree.nodes[*id] {
+                pieces[*k].restore = false;
+            }
+        }
+        REdit::ClearSwap(id) => {
+            t = tr.clone();
+            if let Node::Join { swap, .. } = &mut t.tree.nodes[*id] {
+                *swap = false;
+            }
+        }
+        REdit::ClearJoinRestore(id) => {
+            t = tr.clone();
+            if let Node::Join { restore, .. } = &mut t.tree.nodes[*id] {
+                *restore = false;
+            }
+        }
+        REdit::PlainTail(id, k) => {
+            t = tr.clone();
+            if let Node::Join { tail, .. } = &mut t.tree.nodes[*id] {
+                tail[*k].restore = false;
+                tail[*k].path = Path::AddLoop;
+            }
+        }
+        REdit::SetValue(i, second, bits) => {
+            t = tr.clone();
+            if *second {
+                t.data[*i].1 = *bits;
+            } else {
+                t.data[*i].0 = *bits;
+            }
+        }
+    }
+    Some(t)
+}
+
 impl Scenario for RScenario {
     fn name(&self) -> &'static str {
         self.prop.scen_name()
     }
 
-    fn run(&self, seed: u64, tier: Tier, st: &mut Stats) -> (RunInfo, Option<Failure>) {
+    fn run(&self, seed: u64, _index: u64, tier: Tier, st: &mut Stats) -> (RunInfo, Option<Failure>) {
         let (tr, _gs) = self.generate(seed, tier, st);
         let nontrivial = tr.tree.n_joins() >= 1 || tr.tree.has_restores();
         let mut key = tr.tree.shape_hash();
@@ -1257,121 +1406,24 @@ impl Scenario for RScenario {
         Ok(self.execute(&tr, st))
     }
 
-    fn shrink(&self, trace: &Value) -> Vec<Value> {
+    fn minimise(&self, trace: &Value, class: &str, budget: usize) -> (Value, Viol, usize) {
         let tr: RTrace = match serde_json::from_value(trace.clone()) {
             Ok(t) => t,
-            Err(_) => return vec![],
+            Err(e) => return (trace.clone(), Viol::new("harness", format!("bad trace: {}", e)), 0),
         };
-        let mut out: Vec<RTrace> = vec![];
-        let n = tr.data.len();
-        // 1. the whole tree as one add-loop leaf
-        if tr.tree.nodes.len() > 1 {
-            let mut t = tr.clone();
-            t.tree = TreeTrace::single_leaf(n);
-            out.push(t);
-        }
-        // 2. drop halves / quarters / single items of the data
-        let mut sizes = vec![];
-        let mut s = n / 2;
-        while s >= 1 {
-            sizes.push(s);
-            s /= 2;
-        }
-        for s in sizes {
-            let mut lo = 0;
-            while lo + s <= n {
-                out.push(remove_items(&tr, lo, lo + s));
-                lo += s;
-            }
-        }
-        // 3. collapse a join into a leaf
-        let layout = tr.tree.layout();
-        for id in tr.tree.reachable() {
-            if let Node::Join { .. } = &tr.tree.nodes[id] {
-                let mut t = tr.clone();
-                let len = layout[id].1 - layout[id].0;
-                t.tree.nodes[id] = Node::Leaf { pieces: vec![Piece { path: Path::AddLoop, len, restore: false }] };
-                t.tree = prune(&t.tree);
-                out.push(t);
-            }
-        }
-        // 4. drop the schedule
-        if !tr.tree.order.is_empty() {
-            let mut t = tr.clone();
-            t.tree.order.clear();
-            out.push(t);
-        }
-        // 5. simplify pieces: one add-loop piece per leaf, no faults, no swaps, tails merged away
-        for id in tr.tree.reachable() {
-            match &tr.tree.nodes[id] {
-                Node::Leaf { pieces } => {
-                    let len: usize = pieces.iter().map(|p| p.len).sum();
-                    if pieces.len() != 1 || pieces[0].path != Path::AddLoop || pieces[0].restore {
-                        let mut t = tr.clone();
-                        t.tree.nodes[id] = Node::Leaf { pieces: vec![Piece { path: Path::AddLoop, len, restore: false }] };
-                        out.push(t);
-                    }
-                    for (k, p) in pieces.iter().enumerate() {
-                        if p.restore {
-                            let mut t = tr.clone();
-                            if let Node::Leaf { pieces } = &mut t.tree.nodes[id] {
-                                pieces[k].restore = false;
-                            }
-                            out.push(t);
-                        }
-                    }
-                }
-                Node::Join { swap, restore, tail, .. } => {
-                    if *swap {
-                        let mut t = tr.clone();
-                        if let Node::Join { swap, .. } = &mut t.tree.nodes[id] {
-                            *swap = false;
-                        }
-                        out.push(t);
-                    }
-                    if *restore {
-                        let mut t = tr.clone();
-                        if let Node::Join { restore, .. } = &mut t.tree.nodes[id] {
-                            *restore = false;
-                        }
-                        out.push(t);
-                    }
-                    for (k, p) in tail.iter().enumerate() {
-                        if p.restore || p.path != Path::AddLoop {
-                            let mut t = tr.clone();
-                            if let Node::Join { tail, .. } = &mut t.tree.nodes[id] {
-                                tail[k].restore = false;
-                                tail[k].path = Path::AddLoop;
-                            }
-                            out.push(t);
-                        }
-                    }
-                }
-            }
-        }
-        // 6. simpler values
-        if n <= 64 {
-            for i in 0..n {
-                for y in simpler_value(f64::from_bits(tr.data[i].0)) {
-                    let mut t = tr.clone();
-                    t.data[i].0 = y.to_bits();
-                    out.push(t);
-                }
-                if tr.pair {
-                    for y in simpler_value(f64::from_bits(tr.data[i].1)) {
-                        let mut t = tr.clone();
-                        t.data[i].1 = y.to_bits();
-                        out.push(t);
-                    }
-                }
-            }
-        }
-        out.into_iter()
-            .map(|mut t| {
-                t.refresh_readable();
-                serde_json::to_value(&t).unwrap()
-            })
-            .collect()
+        let (mut t, v, tries) = crate::framework::minimise_typed(
+            tr,
+            class,
+            budget,
+            r_edits,
+            r_apply,
+            |t| {
+                let mut st = Stats::default();
+                self.execute(t, &mut st)
+            },
+        );
+        t.refresh_readable();
+        (serde_json::to_value(&t).unwrap(), v, tries)
     }
 
     fn sample(&self, seed: u64, tier: Tier) -> Value {
